@@ -13,6 +13,7 @@ namespace yw {
 struct A { virtual ~A() {} int a; };
 struct B : A { int b; };
 struct C : A { int c; };
+struct VB : virtual A { int vb; };                      // virtual base: conversions need dynamic_cast
 struct Trk { Trk(); Trk(const Trk&); Trk(Trk&&) noexcept; ~Trk(); int v; };   // tracked non-virtual argument type
 
 // ---- policies -------------------------------------------------------------
@@ -42,7 +43,7 @@ struct proj_rtti : policy::rtti {
     template<typename D, typename B_> static D dynamic_cast_ref(B_&& obj) { return dynamic_cast<D>(obj); }
 };
 struct p_proj : policy::basic_policy<p_proj, proj_rtti, policy::vptr_map<p_proj>, policy::vectored_error<p_proj>> {};
-template<class P> struct pol_classes { use_classes<A, B, C, P> reg; };
+template<class P> struct pol_classes { use_classes<A, B, C, VB, P> reg; };
 }  // namespace yw
 '''
 
@@ -144,7 +145,10 @@ def _assign(ms):
     return out
 
 
-def method_block(pname, shape, idx, with_macro=False):
+DYN_SHAPES = ["r", "pi", "sS", "V", "X", "cW"]       # also instantiated with a definition on the virtual-base class
+
+
+def method_block(pname, shape, idx, with_macro=False, defcls="yw::B"):
     P = POLICIES[pname]
     ns = "w_%s_%d" % (pname, idx)
     margs, dargs, cparams, cexprs, rparams = [], [], [], [], []
@@ -152,7 +156,7 @@ def method_block(pname, shape, idx, with_macro=False):
         k = ALLK[ch]
         n = "a%d" % i
         margs.append(k[0].format(P=P))
-        dargs.append(k[1].format(P=P))
+        dargs.append(k[1].format(P=P).replace("yw::B", defcls))
         cparams.append(k[2].format(P=P, n=n))
         cexprs.append(k[3].format(n=n))
     src = []
@@ -202,6 +206,12 @@ def call_matrix(policies, shapes, extra="", static_shapes=()):
                 pass
             src.append(method_block(p, s, idx))
             index.append({"ns": "w_%s_%d" % (p, idx), "policy": p, "shape": s})
+            idx += 1
+        for s in DYN_SHAPES:
+            if (p in ("p_def", "p_proj") and False):
+                continue
+            src.append(method_block(p, s, idx, defcls="yw::VB"))
+            index.append({"ns": "w_%s_%d" % (p, idx), "policy": p, "shape": s, "defcls": "yw::VB"})
             idx += 1
         for s in static_shapes:
             blk, ns = static_method_block(p, s, idx)
